@@ -394,6 +394,14 @@ fn cpi_from_infos(ix: &Instruction, infos: &[AccountInfo], seeds: &[&[&[u8]]]) -
     r
 }
 
+/// Program ids that stand for an attacker's own deployed program: a CPI into one of them "succeeds" without
+/// doing anything (what a hostile program given writable accounts and PDA signatures would at least do).
+/// Process-wide (transactions run on worker threads); ids are fresh random keys, so shards cannot collide.
+static ROGUE_PROGRAMS: std::sync::Mutex<Vec<Pubkey>> = std::sync::Mutex::new(Vec::new());
+pub fn register_rogue_program(id: Pubkey) {
+    ROGUE_PROGRAMS.lock().unwrap().push(id);
+}
+
 fn dispatch(program_id: &Pubkey, infos: &[AccountInfo], data: &[u8]) -> ProgramResult {
     with_ctx(|c| {
         c.prog_stack.push(*program_id);
@@ -411,6 +419,8 @@ fn dispatch(program_id: &Pubkey, infos: &[AccountInfo], data: &[u8]) -> ProgramR
         spl_memo::processor::process_instruction(program_id, infos, data)
     } else if *program_id == METADATA_PROGRAM_ID {
         Ok(()) // recording stub (see DESIGN.md section 6)
+    } else if ROGUE_PROGRAMS.lock().unwrap().contains(program_id) {
+        Ok(())
     } else {
         Err(ProgramError::IncorrectProgramId)
     };
